@@ -27,7 +27,7 @@ GROUP_THEOREMS = {
     'values': ['get_changed_class_is_model', 'copy_slice_dest_is_model', 'copy_slice_vals_is_model', 'copy_slice_vals_zero_div',
                'global_slice_subset_is_model', 'insert_slice_interleave_is_model', 'insert_sample_interleave_is_model',
                'slice_step_is_model', 'get_changed_class_no_slice_dim_is_model'],
-    'insert': ['change_class_is_model', 'reclassify_is_model', 'insert_slice_is_model', 'insert_non_slice_is_model', 'insert_sample_is_model'],
+    'insert': ['change_class_is_model', 'reclassify_is_model', 'insert_dispatch_is_model', 'insert_slice_is_model', 'insert_non_slice_is_model', 'insert_sample_is_model'],
     'subset': ['copy_slice_is_model', 'copy_sample_is_model', 'get_subset_slice_axis_is_model', 'get_subset_spatial_axis_copies',
                'get_subset_sample_axis_is_model'],
     'header': ['header_slice_times_is_model'],
